@@ -60,7 +60,7 @@ pub struct ProdIter<'buf, B: MutRB> {
     buffer: BufRef<'buf, B>,
 }
 
-unsafe impl<B: ConcurrentRB + MutRB<Item = T>, T> Send for ProdIter<'_, B> {}
+unsafe impl<B: ConcurrentRB + MutRB<Item = T>, T: Send> Send for ProdIter<'_, B> {}
 
 impl<B: MutRB + IterManager> Drop for ProdIter<'_, B> {
     fn drop(&mut self) {
